@@ -419,7 +419,7 @@ func TestC02(t *testing.T) {
 	// signed (with the right key) over that wrong checksum must not be delivered as a decoded message
 	{
 		keyRaw := vh.Sub(seed, "c02-key").Bytes(32)
-		key := frame.NewV2Key(keyRaw)
+		key := mkKey(keyRaw)
 		for _, mi := range genv.sorted() {
 			for k := 0; k < vh.Pick(2, 20); k++ {
 				s, _ := validFrame(r, mi, 2, r.Intn(3), true, keyRaw)
